@@ -27,6 +27,7 @@ type Solver struct {
 	name     string
 	cmd      *exec.Cmd
 	in       io.WriteCloser
+	w        *bufio.Writer
 	out      *bufio.Reader
 	level    int
 	declared map[string]Sort
@@ -65,7 +66,7 @@ func NewSolver(name string, timeoutMs int, log io.Writer) (*Solver, error) {
 	if err := cmd.Start(); err != nil {
 		return nil, err
 	}
-	s := &Solver{name: name, cmd: cmd, in: in, out: bufio.NewReaderSize(outp, 1<<16), declared: map[string]Sort{}, log: log}
+	s := &Solver{name: name, cmd: cmd, in: in, w: bufio.NewWriterSize(in, 1<<16), out: bufio.NewReaderSize(outp, 1<<16), declared: map[string]Sort{}, log: log}
 	s.send("(set-option :print-success false)")
 	s.send("(set-option :produce-models true)")
 	if name == "cvc5" {
@@ -83,6 +84,7 @@ func (s *Solver) Close() {
 	if s == nil || s.cmd == nil {
 		return
 	}
+	s.w.Flush()
 	s.in.Close()
 	s.cmd.Process.Kill()
 	s.cmd.Wait()
@@ -92,12 +94,13 @@ func (s *Solver) send(line string) {
 	if s.log != nil {
 		fmt.Fprintln(s.log, line)
 	}
-	io.WriteString(s.in, line)
-	io.WriteString(s.in, "\n")
+	s.w.WriteString(line)
+	s.w.WriteByte('\n')
 }
 
 // readSexp reads one complete answer: either an atom line or a balanced s-expression.
 func (s *Solver) readSexp() string {
+	s.w.Flush()
 	var sb strings.Builder
 	depth := 0
 	started := false
